@@ -75,7 +75,7 @@ CHECKS = {
     "C01": ("translation_validation",
             "differential property-based testing (Hypothesis): generated FHDL programs executed by the repository's simulator and, from the emitted text, by an IEEE 1364-2005 evaluator written for the emitted subset; lock-step comparison of every register, comb signal and memory word",
             "Programs: grammar-generated fragments in two tiers (tier 1 assignment-normal form where no legitimate divergence exists - any disagreement is a violation; tier 2 nested arithmetic where vsim evaluates every right-hand side and condition twice, at IEEE context width and unbounded, and taints targets on which the two differ - disagreements on tainted signals are the known intermediate-overflow class, counted, not reported). Features: signedness mixes, constants incl. negative/boundary, slices/Cat/Replicate on both sides, Array reads, If/Elif/Else, Case with signed selectors, comb and sync logic in 1-2 clock domains with generated edge schedules, resets, non-zero/reset-less registers, memories (1-2 ports, every mode, granularity, read enable, async read, partial init), both comb emission styles. Each program runs 6..24 instants of generated stimuli in both executions; all compared signals and memory words are compared after every instant.",
-            "Trusted: vsim (validated by conformance vectors taken from the standard's text - exit 2 on disagreement), CPython, Hypothesis. Not compared: 'output reg' ports (no initialiser in the emitted text), Instances (not executed). Known semantic-gap classes excluded by construction: memories are not reset in Verilog, multi-clock memories forced READ_FIRST, NO_CHANGE with granularity, mixed-signedness Arrays, out-of-range addresses. Corpus of real cores: not yet part of this check.",
+            "Trusted: vsim (validated by conformance vectors taken from the standard's text - exit 2 on disagreement), CPython, Hypothesis. Not compared: 'output reg' ports (no initialiser in the emitted text), Instances (not executed). Known semantic-gap classes excluded by construction: memories are not reset in Verilog, multi-clock memories forced READ_FIRST, NO_CHANGE with granularity, mixed-signedness Arrays, out-of-range addresses. Corpus sub-check: 18 real cores of the repository at 45 parameterisations (stream, wishbone, CSR, packet, code, ECC, serial cores) are converted and run in lock-step on seeded random stimuli of all their undriven signals.",
             "DESIGN.md section 4 / C01"),
     "C11": ("fault_enumeration",
             "fault-injection property-based testing (Hypothesis) + exhaustive sweep of the fault offset: deadline / error-indication / undisturbed / recovery invariants from per-cycle port traces",
@@ -99,8 +99,8 @@ CHECKS = {
             "DESIGN.md section 4 / C10"),
     "C14": ("exploration",
             "property-based testing (Hypothesis): round trip export text -> parsed accessor sequence -> bus cycles on the simulated finalised SoC -> the register's own signal; byte-placement oracle for memory images",
-            "Generated CPU-less SoCCores (wishbone/axi-lite/axi x 32/64-bit bus x shared/crossbar x CSR paging x CSR address width x CSR origin x 1..4 peripherals with generated storages/statuses of 1..70 bits and CSR-mapped memories, fixed CSR slots, SRAM sizes) are finalised, exported with the real get_csr_header / get_csr_json / get_csr_csv, and simulated with a test master attached through the SoC's own adapter path: every published writable register is written through its accessor sequence and its storage signal must hold the value while all other storages keep theirs; every drivable status is read back through its published sequence; CSR memory windows and the SRAM region are accessed at first/last word; header, JSON and CSV must agree; CONFIG_CSR_DATA_WIDTH must match. Images: get_mem_data for generated files, widths 32/64/128, both endiannesses, multi-region maps: every source byte at word (base+k)//B, lane per endianness.",
-            "Trusted: Migen's simulator, tracer shim, the regex parser of the generated header. Known findings excluded by construction and replayed: csr_data_width=8 stride, little ordering vs big-endian accessors, big-endian images wider than 32 bit. SVD, interrupt numbers (needs a CPU) and linker regions are not yet part of the check.",
+            "Generated CPU-less SoCCores (wishbone/axi-lite/axi x 32/64-bit bus x shared/crossbar x CSR paging x CSR address width x CSR origin x 1..4 peripherals with generated storages/statuses of 1..70 bits and CSR-mapped memories, fixed CSR slots, SRAM sizes) are finalised, exported with the real get_csr_header / get_csr_json / get_csr_csv, and simulated with a test master attached through the SoC's own adapter path: every published writable register is written through its accessor sequence and its storage signal must hold the value while all other storages keep theirs; every drivable status is read back through its published sequence; CSR memory windows are read at first/last word; every RAM region (SRAM, main RAM, extra RAMs at generated origins, sizes that are no power of two, allocator-placed) gets unique values at its first/last word, all written before any is read back; the ROM is read against its image; with a CPU-like interrupt vector attached every peripheral's event is raised (enables written through the published registers) and the vector must read 1 << published number; C header (accessors and their C types), JSON, CSV, SVD (register addresses and bit ranges, regions, constants, interrupts), mem header, SoC header and linker regions must agree entry by entry; CONFIG_* constants and CSR constants must match the build. Images: get_mem_data for generated files, widths 32/64/128, both endiannesses, multi-region maps: every source byte at word (base+k)//B, lane per endianness.",
+            "Trusted: Migen's simulator, tracer shim, the regex parser of the generated header. Known findings excluded by construction and replayed: csr_data_width=8 stride, little ordering vs big-endian accessors, big-endian images wider than 32 bit. SVD <resetValue>/<size> of sub-registers are not compared (the property speaks of locations); a region answering additionally outside its published window is only seen when it collides with another published region.",
             "DESIGN.md section 4 / C14"),
     "C05": ("exploration",
             "property-based testing (Hypothesis) + enumeration of clock phase relations: generated edge interleavings with per-bit first-flop resolution injected into every MultiReg; FIFO prefix relation, 'only real words' invariant, scoreboards",
